@@ -17,7 +17,8 @@ pub open spec fn is_prefix(a: Seq<int>, b: Seq<int>) -> bool {
 impl Receiver<NodeIndex<FnIdInner>> {
     /// tokio `Receiver::poll_recv`: Ready(Some(head)) if non-empty; Ready(None) if empty and every sender is
     /// gone; otherwise Pending AND the task's waker is registered (woken by the next send / last sender drop).
-    /// A Ready result registers nothing.
+    /// A Ready result registers nothing. Inside a tokio runtime the call may ALSO return Pending without looking at the
+    /// channel when the task's cooperative budget is used up; tokio then schedules a wake-up of the task itself: `self_woken`.
     #[verifier::external_body]
     pub fn poll_recv(&mut self, cx: &mut Context, Tracked(w): Tracked<&mut World>) -> (r: Poll<Option<NodeIndex<FnIdInner>>>)
         requires
@@ -26,9 +27,13 @@ impl Receiver<NodeIndex<FnIdInner>> {
             0 <= old(w).done.recvd <= old(w).done.sent.len(),
         ensures
             final(self).chan() == old(self).chan(),
+            old(w).self_woken ==> final(w).self_woken,
             old(self).chan() == READY ==> {
                 let c = old(w).ready;
-                if c.recvd < c.sent.len() {
+                if r is Pending && final(w).self_woken && !(c.recvd >= c.sent.len() && c.senders != 0 && *final(w) == (World { ready: Chan { waker: true, ..c }, ..*old(w) })) {
+                    // budget exhausted: nothing happened to the channel, the runtime has scheduled the task's wake-up
+                    *final(w) == (World { self_woken: true, ..*old(w) })
+                } else if c.recvd < c.sent.len() {
                     r == Poll::Ready(Some(nid(c.sent[c.recvd])))
                     && *final(w) == (World { ready: Chan { recvd: c.recvd + 1, waker: false, ..c }, handed: old(w).handed.push(c.sent[c.recvd]), ..*old(w) })
                 } else if c.senders == 0 {
@@ -44,15 +49,15 @@ impl Receiver<NodeIndex<FnIdInner>> {
                 &&& seq_to_set(final(w).done.sent, old(w).done.recvd) == seq_to_set(old(w).done.sent, old(w).done.recvd)
                 &&& (done_sent_ok(*old(w)) ==> done_sent_ok(*final(w)))
                 &&& final(w).done.senders <= old(w).done.senders
-                &&& *final(w) == (World { done: final(w).done, ..*old(w) })
+                &&& *final(w) == (World { done: final(w).done, self_woken: final(w).self_woken, ..*old(w) })
                 &&& final(w).done.cap == old(w).done.cap && final(w).done.rx_alive == old(w).done.rx_alive
                 &&& match r {
-                        Poll::Ready(Some(id)) => old(w).done.recvd < final(w).done.sent.len() && id.0.0 == final(w).done.sent[old(w).done.recvd]
+                        Poll::Ready(Some(id)) => final(w).self_woken == old(w).self_woken && old(w).done.recvd < final(w).done.sent.len() && id.0.0 == final(w).done.sent[old(w).done.recvd]
                             && final(w).done.recvd == old(w).done.recvd + 1 && !final(w).done.waker && final(w).done.closed_seen == old(w).done.closed_seen,
-                        Poll::Ready(None) => final(w).done.recvd == old(w).done.recvd && final(w).done.recvd == final(w).done.sent.len()
+                        Poll::Ready(None) => final(w).self_woken == old(w).self_woken && final(w).done.recvd == old(w).done.recvd && final(w).done.recvd == final(w).done.sent.len()
                             && final(w).done.senders == 0 && final(w).done.closed_seen && final(w).done.waker == old(w).done.waker,
-                        Poll::Pending => final(w).done.recvd == old(w).done.recvd && final(w).done.recvd == final(w).done.sent.len()
-                            && final(w).done.waker && final(w).done.closed_seen == old(w).done.closed_seen,
+                        Poll::Pending => final(w).done.recvd == old(w).done.recvd && final(w).done.closed_seen == old(w).done.closed_seen
+                            && ((final(w).done.recvd == final(w).done.sent.len() && final(w).done.waker) || (final(w).self_woken && final(w).done.waker == old(w).done.waker)),
                     }
             },
     { unimplemented!() }
